@@ -202,3 +202,62 @@ class AttemptOnline:
                 probes == 1 and not self.g_reply_none and self.g_reply_stream == 1 and self.g_reply_function == 2),
             "otherwise-host-offline": self._control_state.g_last == 1 or self._control_state.g_last == 2,
         }
+
+
+def _c11_replay(kind, case):
+    """Native demonstration on a real equipment handler (in-memory link, scripted host): S1F15 / S1F17 from the case's state,
+    resp. the on-line attempt against each probe outcome, judged by the E30 clauses of the property."""
+    import logging
+    from bounded import C11_api as A
+    from bounded import harness as H
+    from spec import e5ref as R
+    logging.disable(logging.CRITICAL)
+    failed, seen = [], []
+    with H.virtual_timers():
+        if kind in ("s1f15", "s1f17"):
+            state = case["state"].name
+            if state in ("ATTEMPT_ONLINE", "ONLINE"):
+                return None     # transient states: not reachable as a resting state through the public operations
+            handler, proto, conn = A.build("EQUIPMENT_OFFLINE", "REMOTE", "s1f2")
+            try:
+                A.drive_to(handler, conn, state, "REMOTE")
+                if A.current(handler) != state:
+                    return None
+                conn.sent.clear()
+                fn = 15 if kind == "s1f15" else 17
+                conn.feed(H.frame(0, 0x51525354, 1, fn, True, b""))
+                rsp = [f for f in conn.frames() if f["stype"] == 0 and f["system"] == 0x51525354]
+                code = R.parse(rsp[0]["body"])[0][1][0] if len(rsp) == 1 and rsp[0]["function"] == fn + 1 else None
+                after = A.current(handler)
+                seen.append({"state": state, "request": f"S1F{fn}", "ack": code, "after": after})
+                online = state in ("ONLINE_LOCAL", "ONLINE_REMOTE")
+                if kind == "s1f15":
+                    if code != 0:
+                        failed.append(f"S1F15 in {state}: OFLACK {code}, expected 0")
+                    if after != ("HOST_OFFLINE" if online else state):
+                        failed.append(f"S1F15 in {state}: state {after}")
+                else:
+                    want = 0 if state == "HOST_OFFLINE" else 2 if online else 1
+                    if code != want:
+                        failed.append(f"S1F17 in {state}: ONLACK {code}, expected {want}")
+                    if (state == "HOST_OFFLINE") != (after in ("ONLINE_LOCAL", "ONLINE_REMOTE") and state == "HOST_OFFLINE") or (state != "HOST_OFFLINE" and after != state):
+                        failed.append(f"S1F17 in {state}: state {after}")
+            finally:
+                H.shutdown(proto, conn)
+        else:
+            for probe in ("s1f2", "s1f0", "none"):
+                handler, proto, conn = A.build("EQUIPMENT_OFFLINE", "REMOTE", probe)
+                try:
+                    handler.control_switch_online()
+                    after = A.current(handler)
+                    seen.append({"probe_answer": probe, "after": after})
+                    if (after in ("ONLINE_LOCAL", "ONLINE_REMOTE")) != (probe == "s1f2"):
+                        failed.append(f"on-line attempt with probe answer {probe}: state {after}")
+                finally:
+                    H.shutdown(proto, conn)
+    return {"status": "confirmed" if failed else "spurious", "failed_clauses": failed, "inputs": {"case": {k: getattr(v, "name", v) for k, v in case.items()}}, "observed": seen}
+
+
+OnS1F15.replay = staticmethod(lambda case, name, model: _c11_replay("s1f15", case))
+OnS1F17.replay = staticmethod(lambda case, name, model: _c11_replay("s1f17", case))
+AttemptOnline.replay = staticmethod(lambda case, name, model: _c11_replay("attempt", case))
